@@ -80,3 +80,14 @@ def run(P: Program, rep: Report):
         bad = [b.name for b in c.mro if b.name in ("Entry", "String")]
         rep.check(not bad and m.classes["ParsingFailedBlock"] in c.mro, "C09.R5", f"class:{n}", c.loc,
                   f"{n} inherits from {bad or 'something other than ParsingFailedBlock'}: a duplicate would be indexed as live / missing from failed_blocks")
+
+    rep.rule("C09.R6", "parse_string with a `library=` argument splits into that library, so that every block of the document is added "
+                       "one by one to the library that already holds the earlier blocks (first-is-live across both)")
+    from .c20 import library_argument_flow
+    probs, npaths = library_argument_flow(P)
+    rep.check(not probs, "C09.R6", "parse_string:library-arg", P.func("entrypoint", "parse_string").loc, probs[0] if probs else "")
+
+    rep.rule("C09.R9", "no unsafe memoisation in the modules this property rests on: a function decorated with lru_cache / cache / "
+                      "cached_property neither takes nor returns a mutable object (else later calls see stale or shared results)")
+    from . import common as _common
+    _common.no_unsafe_memoisation(P, rep, "C09.R9", ['library', 'model', 'splitter'])
